@@ -309,7 +309,7 @@ func (sim *Sim) runGated(enc codec.Encoder) {
 	}
 	wait1, wait2 := dl(5*time.Second), dl(3*time.Second)
 	if sim.stuck == 1 { // already a finding: do not spend the budget waiting for the rescue
-		wait1, wait2 = 1500*time.Millisecond, 500*time.Millisecond
+		wait1, wait2 = 200*time.Millisecond, 100*time.Millisecond // the finding is established: abandon the goroutines
 	}
 	end := time.Now().Add(wait1)
 	for !sim.harnessThreadsDone() && time.Now().Before(end) {
@@ -688,7 +688,7 @@ func (sim *Sim) runFree(enc codec.Encoder) {
 		}
 		rescue := dl(6 * time.Second)
 		if sim.stuck == 1 {
-			rescue = 1500 * time.Millisecond
+			rescue = 300 * time.Millisecond
 		}
 		select {
 		case <-closersDone:
@@ -706,7 +706,7 @@ func (sim *Sim) runFree(enc codec.Encoder) {
 	// let the finalizer spawned by a ForceClose finish
 	pw := dl(5 * time.Second)
 	if sim.stuck == 1 {
-		pw = time.Second
+		pw = 200 * time.Millisecond
 	}
 	end := time.Now().Add(pw)
 	for sim.pumpsAlive() && time.Now().Before(end) {
